@@ -233,6 +233,49 @@ theorem findnode_closest_is_min_of_visited (fuel : Nat) (initial : List NodeInfo
     rw [(findNodeFn_good target validate ask st node).1, findNodeFn_closest]
     exact IsMin_update _ _ _ _ _ (by simp) hR
 
+/-! ## findnode_only_validated -/
+
+/-- the peers the find-node callback hands back were listed in this very answer and passed `validate` -/
+theorem findNodeFn_new_validated (target : Bytes) (validate : NodeInfo → Bool) (ask : Responder) (st : St)
+    (node : NodeInfo) :
+    ∀ x ∈ (findNodeFn target validate ask st node).2.1, x ∈ (ask st.calls node).nodes ∧ validate x = true := by
+  unfold findNodeFn
+  dsimp only
+  repeat' split
+  all_goals simp_all
+
+theorem findnode_only_validated (fuel : Nat) (initial : List NodeInfo) (target : Bytes)
+    (validate : NodeInfo → Bool) (ask : Responder) (st : St)
+    (h : findNode fuel initial target validate ask = some st) :
+    (∀ v ∈ st.visited, (∃ n ∈ initial, n.id = v) ∨ (∃ i n, ∃ m ∈ (ask i n).nodes, validate m = true ∧ m.id = v)) ∧
+    (∀ c, st.closest = some c → (c ∈ initial) ∨ (∃ i n, c ∈ (ask i n).nodes ∧ validate c = true)) := by
+  unfold findNode at h
+  let P : NodeInfo → Prop := fun c => c ∈ initial ∨ (∃ i n, c ∈ (ask i n).nodes ∧ validate c = true)
+  let M : Bytes → Prop := fun v =>
+    (∃ n ∈ initial, n.id = v) ∨ (∃ i n, ∃ m ∈ (ask i n).nodes, validate m = true ∧ m.id = v)
+  have hPM : ∀ x, P x → M x.id := by
+    intro x hx
+    rcases hx with hx | ⟨i, n, hx, hv⟩
+    · exact Or.inl ⟨x, hx, rfl⟩
+    · exact Or.inr ⟨i, n, x, hx, hv, rfl⟩
+  have := run_inv _ _ _ P (fun _ st => (∀ v ∈ st.visited, M v) ∧ ∀ c, st.closest = some c → P c) ?_
+    ⟨by simp, by simp⟩ fuel initial (fun x hx => Or.inl hx) st h
+  · exact this.elim fun _ h => h
+  · intro seen st node hR hP _
+    refine ⟨⟨?_, ?_⟩, fun x hx => ?_⟩
+    · rw [(findNodeFn_good target validate ask st node).1]
+      intro v hv
+      rcases List.mem_cons.1 hv with rfl | hv
+      · exact hPM _ hP
+      · exact hR.1 v hv
+    · rw [findNodeFn_closest]
+      intro c hc
+      split at hc
+      · cases hc; exact hP
+      · exact hR.2 c hc
+    · have ⟨h1, h2⟩ := findNodeFn_new_validated target validate ask st node x hx
+      exact Or.inr ⟨_, _, h1, h2⟩
+
 /-! ## get_truthful -/
 
 theorem getFn_spec (key : Bytes) (validate : Bytes → Bool) (ask : Responder) (st : St) (node : NodeInfo) :
